@@ -85,6 +85,7 @@ func (q *queue) enqueue(c *caller) bool {
 	q.mu.Lock()
 	defer q.mu.Unlock()
 	if q.retired {
+		verifhook.Point("lock.enqueue.retired", verifhook.Ref(q), verifhook.Ref(c))
 		return false
 	}
 	wasEmpty := len(q.callers) == 0
@@ -121,6 +122,7 @@ func (l *lock) remove(key string, q *queue, id string) bool {
 		if len(q.callers) == 0 {
 			q.retired = true
 			l.queues.CompareAndDelete(key, q)
+			verifhook.Point("lock.prune", verifhook.Ref(q))
 		}
 		verifhook.Point("lock.remove", verifhook.Ref(q), verifhook.Ref(c), int64(i), int64(len(q.callers)))
 		return true
